@@ -11,7 +11,7 @@ import sys
 import types
 import os as _os
 import billiard.connection as bc
-from harness.hbase import fail, tier, Prune, REPLAY
+from harness.hbase import fail, tier, Prune, REPLAY, realize, PART, NPART
 
 KMAX = tier(2, 3)
 
@@ -26,10 +26,8 @@ class FakeHmacObj:
         self.msg = msg
 
     def digest(self):
-        k = self.key
-        while len(k) > 0 and k[len(k) - 1] == 0:       # HMAC pads the key with zero bytes
-            k = k[:len(k) - 1]
-        return b'H' + bytes([len(k)]) + k + b'|' + self.msg
+        k = self.key + b'\x00' * (KMAX + 1 - len(self.key))       # HMAC pads the key with zero bytes to its block size
+        return b'H' + k + b'|' + self.msg
 
 
 def fake_hmac():
@@ -117,20 +115,22 @@ def _handshake(deliver_key, answer_key, challenge):
     return (dr, ar, d.sent)
 
 
-def h_mutual(kl: bytes, kc: bytes, ch1: bytes, ch2: bytes) -> bool:
-    """
-    pre: 1 <= len(kl) <= KMAX and 1 <= len(kc) <= KMAX and len(ch1) == 2 and len(ch2) == 2
-    post: _
-    """
-    # challenges are 2 symbolic bytes + 18 fixed ones (the code never looks inside them)
-    c1 = ch1 + b'\x01' * 18
-    c2 = ch2 + b'\x02' * 18
+KEYS = (b'j', b'k', b'\x00', b'jk', b'kj', b'k\x00', b'j\x00', b'\x00k', b'kk')   # equal / different / prefixes / trailing NUL
+
+
+def _key(i):
+    return KEYS[realize(i)]
+
+
+def _mutual(kl, kc, c1, c2, want):
     real, calls = _install([c1, c2])
     try:
         # Listener.accept: deliver then answer;  Client: answer then deliver
         first = _handshake(kl, kc, c1)
         if first is None or first[0] in ('bad-wire', 'nondeterministic'):
             return fail('C18:wire:challenge-not-sent-as-generated')
+        if want:
+            return not (first[0] == 'auth' and first[1] == 'auth')
         l_ok = first[0] == 'ok'
         c_ok = first[1] == 'ok'
         if l_ok and c_ok:
@@ -139,82 +139,107 @@ def h_mutual(kl: bytes, kc: bytes, ch1: bytes, ch2: bytes) -> bool:
                 return fail('C18:wire:challenge-not-sent-as-generated')
             c_ok = second[0] == 'ok'
             l_ok = second[1] == 'ok'
-        same = kl == kc
-        if same:
+        if kl == kc:
             if not (l_ok and c_ok):
                 return fail('C18:equal-keys-rejected')
-            if calls != [20, 20] or c1 == c2 and False:
+            if calls != [20, 20]:
                 return fail('C18:fresh-challenge-per-direction')
         else:
             if l_ok and c_ok:
                 return fail('C18:different-keys-accepted' + (':differ-only-in-trailing-NUL-bytes' if kl.rstrip(b'\x00') == kc.rstrip(b'\x00') else ''))
             if l_ok or c_ok:
                 return fail('C18:one-side-accepted')
-            if first[0] == 'ok' or (first[0] != 'auth') or first[1] != 'auth':
-                if not (first[0] == 'ok'):
-                    return fail('C18:not-AuthenticationError')
+            if first[0] != 'auth' or first[1] != 'auth':
+                return fail('C18:not-AuthenticationError-on-both-sides')
         return True
     finally:
         _restore(real)
 
 
-def h_mutual_twin(kl: bytes, kc: bytes, ch1: bytes, ch2: bytes) -> bool:
+def h_mutual(ka: int, kb: int, same_challenge: bool) -> bool:
     """
-    pre: 1 <= len(kl) <= KMAX and 1 <= len(kc) <= KMAX and len(ch1) == 2 and len(ch2) == 2
+    pre: 0 <= ka < len(KEYS) and 0 <= kb < len(KEYS)
     post: _
     """
-    c1 = ch1 + b'\x01' * 18
-    real, calls = _install([c1, c1])
-    try:
-        first = _handshake(kl, kc, c1)
-        return not (first is not None and first[0] == 'auth' and first[1] == 'auth')
-    finally:
-        _restore(real)
+    c1 = b'\x01' * 20
+    c2 = c1 if same_challenge else b'\x02' * 20
+    return _mutual(_key(ka), _key(kb), c1, c2, False)
 
 
-def h_hostile_answer(key: bytes, ch: bytes, reply: bytes) -> bool:
+def h_mutual_twin(ka: int, kb: int, same_challenge: bool) -> bool:
     """
-    pre: 1 <= len(key) <= KMAX and len(ch) == 2 and len(reply) <= 6
+    pre: 0 <= ka < len(KEYS) and 0 <= kb < len(KEYS)
     post: _
     """
-    # a peer answers the challenge with anything: accepted iff it is exactly the digest
-    c1 = ch + b'\x03' * 18
+    c1 = b'\x01' * 20
+    return _mutual(_key(ka), _key(kb), c1, c1, True)
+
+
+def _byte(sel, right):
+    """a reply byte chosen by the solver among: the right one, its neighbours, the extremes"""
+    sel = realize(sel)
+    return bytes([(right, right ^ 1, (right + 1) % 256, 0, 255)[sel]])
+
+
+def h_hostile_answer(ka: int, variant: int, sel: int) -> bool:
+    """
+    pre: (ka == 0 or ka == 3) and 0 <= variant <= 4 and 0 <= sel <= 4
+    post: _
+    """
+    # a peer answers the challenge with anything: accepted iff it is exactly the digest.  Replies: nothing, one byte, the right
+    # digest with its last byte replaced, the right digest plus a byte, the right digest
+    key = _key(ka)
+    c1 = b'\x03' * 20
     real, calls = _install([c1])
     try:
         honest = Chan([bc.CHALLENGE + c1])
         _run(bc.answer_challenge, honest, key)
         digest = honest.sent[0]
-        # short symbolic replies, and replies sharing a prefix with the right digest
-        for resp in (reply, digest[:len(digest) - 1] + reply[:1], digest + reply[:1]):
-            d = Chan([resp])
-            calls[:] = []
-            r, _ = _run(bc.deliver_challenge, d, key)
-            if resp == digest:
-                if r != 'ok' or d.sent[1:] != [bc.WELCOME]:
-                    return fail('C18:correct-digest-refused')
-            else:
-                if r != 'auth':
-                    return fail('C18:wrong-digest-accepted')
-                if d.sent[1:] != [bc.FAILURE]:
-                    return fail('C18:wrong-digest-not-answered-FAILURE')
-            if calls != [20] or d.sent[0] != bc.CHALLENGE + c1:
-                return fail('C18:wire:challenge-not-sent-as-generated')
+        variant = realize(variant)
+        x = _byte(sel, digest[len(digest) - 1])
+        if variant == 0:
+            resp = b''
+        elif variant == 1:
+            resp = x
+        elif variant == 2:
+            resp = digest[:len(digest) - 1] + x
+        elif variant == 3:
+            resp = digest + x
+        else:
+            resp = digest
+        d = Chan([resp])
+        calls[:] = []
+        r, _ = _run(bc.deliver_challenge, d, key)
+        if resp == digest:
+            if r != 'ok' or d.sent[1:] != [bc.WELCOME]:
+                return fail('C18:correct-digest-refused')
+        else:
+            if r != 'auth':
+                return fail('C18:wrong-digest-accepted')
+            if d.sent[1:] != [bc.FAILURE]:
+                return fail('C18:wrong-digest-not-answered-FAILURE')
+        if calls != [20] or d.sent[0] != bc.CHALLENGE + c1:
+            return fail('C18:wire:challenge-not-sent-as-generated')
         return True
     finally:
         _restore(real)
 
 
-def h_hostile_verdict(key: bytes, ch: bytes, verdict: bytes) -> bool:
+def h_hostile_verdict(pos: int, sel: int, cut: int) -> bool:
     """
-    pre: 1 <= len(key) <= KMAX and len(ch) == 2 and len(verdict) <= 10
+    pre: 0 <= pos <= 8 and 0 <= sel <= 4 and 0 <= cut <= 10 and (cut >= 9 or sel == 0)
     post: _
     """
-    # the answering side accepts only the exact welcome message
-    c1 = ch + b'\x04' * 18
+    # the answering side accepts only the exact welcome message: one byte replaced, truncated, or extended
+    pos = realize(pos)
+    cut = realize(cut)
+    wl = bc.WELCOME
+    verdict = wl[:pos] + _byte(sel, wl[pos]) + wl[pos + 1:]
+    verdict = verdict[:cut] if cut <= 9 else verdict + b'!'
     real, calls = _install([])
     try:
-        a = Chan([bc.CHALLENGE + c1, verdict])
-        r, _ = _run(bc.answer_challenge, a, key)
+        a = Chan([bc.CHALLENGE + b'\x04' * 20, verdict])
+        r, _ = _run(bc.answer_challenge, a, b'k')
         if verdict == bc.WELCOME:
             return r == 'ok' or fail('C18:welcome-refused')
         return r == 'auth' or fail('C18:handshake-completed-without-welcome')
